@@ -118,6 +118,7 @@ Record hcfg := {
   extends_features : bool     (* self._ts_features.append(<supplemental column first seen in reporting data>) *)
 }.
 Definition pure_cfg : hcfg := {| assigns_back := false; appends_warning := false; extends_features := false |}.
+(* the code as it was found (before /repo 6b499d87 removed the first assignment) *)
 Definition ascoded_cfg : hcfg := {| assigns_back := true; appends_warning := true; extends_features := true |}.
 
 (* the table corrected for the combinations of this data set (correct_missing_temporal_clusters):
